@@ -41,7 +41,7 @@ def _profile(rng):
 
 
 def section_random(ctx, clauses) -> None:
-    n = ctx.scale(120, 800)
+    n = ctx.scale(120, 600)
     traces = []
     hist: dict = {}
     for i in range(n):
@@ -74,7 +74,7 @@ def section_exhaustive(ctx, clauses):
         if ctx.quick:
             progs = rng.sample(progs, 4)
         elif name not in SC.EXHAUSTIVE_ALPHABETS:
-            progs = rng.sample(progs, 100)
+            progs = rng.sample(progs, 60)
         info[name] = {'program_pairs': len(progs), 'all_pairs': not ctx.quick and
                       name in SC.EXHAUSTIVE_ALPHABETS, 'schedules_each': 20,
                       'commands': [repr(c) for c in alphabet]}
